@@ -72,6 +72,38 @@ def _impl(tier, seed, search):
             ok, Xn = L.noraise('SE2.norm', lambda: SE2(T2n, check=False).norm().A, dict(T=T2n), 'SE2.norm()', sig='SE2.norm:raises')
             if ok and Xn is not None:
                 r = geom.se_residual(Xn); L.check('SE2.norm:valid', r <= TOL, dict(T=T2n), f'SE2.norm result not valid (residual {r:.3g})')
+        # planar normalisation in full: members are returned unchanged (also for angles within 1e-9 .. 1e-5 of 0 and of pi, where an
+        # inverse cosine would lose them), idempotent, the direction of the second column is kept, the translation untouched
+        if i % 3 == 0:
+            th2_ = float(g.choice([float(g.uniform(-math.pi, math.pi)), float(g.choice([-1, 1])) * 10.0 ** g.uniform(-9, -5), float(g.choice([-1, 1])) * (math.pi - 10.0 ** g.uniform(-9, -5)), 0.0, math.pi]))
+            R2v = inputs.r2(th2_); T2v = np.eye(3); T2v[:2, :2] = R2v; T2v[:2, 2] = t[:2]
+            for nm_, call_, A_ in (('trnorm2(R)', lambda: b.trnorm2(R2v), R2v), ('trnorm2(T)', lambda: b.trnorm2(T2v), T2v), ('SO2.norm', lambda: SO2(R2v, check=False).norm().A, R2v), ('SE2.norm', lambda: SE2(T2v, check=False).norm().A, T2v),
+                                   ('SE2.norm(multi)[1]', lambda: SE2([np.eye(3), T2v], check=False).norm().data[1], T2v)):
+                ok, r = L.noraise(f'{nm_}:fixes-valid', call_, dict(theta=th2_), f'{nm_} of a valid planar value')
+                if ok and r is not None: L.close(f'{nm_}:fixes-valid', np.asarray(r, float), A_, TOL, max(1.0, geom.tmag(A_)) if A_.shape == (3, 3) else 1.0, dict(theta=th2_), what=f'{nm_} does not return an already valid value unchanged', sig='trnorm2:fixes-valid')
+            nz2 = g.normal(size=(2, 2)) * noise; R2p = R2v + nz2
+            ok, r = L.noraise('trnorm2(noisy)', lambda: (b.trnorm2(R2p), b.trnorm2(b.trnorm2(R2p))), dict(R=R2p), 'trnorm2 of a noisy rotation', sig='trnorm2:raises')
+            if ok:
+                o_ = R2p[:, 1] / np.linalg.norm(R2p[:, 1])
+                L.check('trnorm2:valid', geom.so_residual(r[0]) <= TOL, dict(R=R2p), 'trnorm2 result is not a rotation to 1e-12', sig='trnorm2'); L.close('trnorm2:idempotent', r[1], r[0], TOL, 1.0, dict(R=R2p), sig='trnorm2')
+                L.close('trnorm2:second-axis', r[0][:, 1], o_, TOL, 1.0, dict(R=R2p), what='trnorm2 does not keep the direction of the second column', sig='trnorm2')
+        # single-precision vectors: the result is the double-precision unit vector of the values given
+        if i % 4 == 1:
+            v32 = (g.normal(size=3) * 10.0 ** g.uniform(-6, 6)).astype(np.float32); v64 = v32.astype(float)
+            if np.all(np.isfinite(v64)) and np.linalg.norm(v64) > 0:
+                ok, r = L.noraise('unitvec(float32)', lambda: (np.asarray(b.unitvec(v32), float), np.asarray(b.unitvec_norm(v32)[0], float), np.asarray(b.unitvec(b.unitvec(v32)), float)), dict(v=v64), 'unitvec of a float32 vector')
+                if ok:
+                    L.close('unitvec(float32)', r[0], v64 / np.linalg.norm(v64), TOL, 1.0, dict(v=v64), what='unitvec of a float32 vector is not the unit vector to 1e-12', sig='unitvec:float32'); L.close('unitvec_norm(float32)', r[1], v64 / np.linalg.norm(v64), TOL, 1.0, dict(v=v64), sig='unitvec:float32')
+                    L.close('unitvec(float32):idempotent', r[2], r[0], TOL, 1.0, dict(v=v64), sig='unitvec:float32')
+        # unit() of objects holding 1 .. 5 values, among them the quaternion basis (whose stacked rows happen to form a valid 4x4 matrix)
+        if i % 16 == 3:
+            for nq_ in (1, 2, 3, 4, 5):
+                for kind_, rows_ in (('basis', [np.eye(4)[k_ % 4] * (2.0 + k_) for k_ in range(nq_)]), ('random', [g.normal(size=4) * 10.0 ** g.uniform(-2, 2) for _ in range(nq_)])):
+                    ok, r = L.noraise(f'Quaternion.unit(N={nq_})', lambda: [np.asarray(a_, float) for a_ in Quaternion(rows_).unit().data], dict(N=nq_, kind=kind_), 'unit() of a multi-valued quaternion')
+                    if ok:
+                        L.check('Quaternion.unit(multi):len', len(r) == nq_, dict(N=nq_, kind=kind_), f'unit() of {nq_} quaternions returns {len(r)}', sig='Quaternion.unit(multi)')
+                        if len(r) == nq_:
+                            for k_ in range(nq_): L.close('Quaternion.unit(multi)', r[k_], rows_[k_] / np.linalg.norm(rows_[k_]), TOL, 1.0, dict(N=nq_, kind=kind_, k=k_), sig='Quaternion.unit(multi)')
         # ---- vectors / quaternions -----------------------------------------------------------------
         mag = 10.0 ** g.uniform(-6, 6)
         v = g.normal(size=3); v = v / np.linalg.norm(v) * mag
